@@ -24,16 +24,19 @@ theorem stepF_recv {f f' : FSt} {t : Tid} {c : Obj} (h : stepF f (t, .recv c) = 
   · cases h
 
 theorem stepF_close {f f' : FSt} {t : Tid} {c : Obj} (h : stepF f (t, .close c) = some f') :
-    f' = { f with closed := upd f.closed c true } := by
+    f.closed c = false ∧ f' = { f with closed := upd f.closed c true } := by
   simp only [stepF] at h
   split at h
   · cases h
-  · exact (Option.some.inj h).symm
+  · next h1 => exact ⟨by simpa using h1, (Option.some.inj h).symm⟩
 
-theorem stepF_recvC {f f' : FSt} {t : Tid} {c : Obj} (h : stepF f (t, .recvC c) = some f') : f' = f := by
+theorem stepF_recvC {f f' : FSt} {t : Tid} {c : Obj} (h : stepF f (t, .recvC c) = some f') :
+    f.closed c = true ∧ f' = f := by
   simp only [stepF] at h
   split at h
-  · exact (Option.some.inj h).symm
+  · next h1 =>
+    rw [Bool.and_eq_true] at h1
+    exact ⟨h1.1, (Option.some.inj h).symm⟩
   · cases h
 
 theorem stepF_lock {f f' : FSt} {t : Tid} {m : Obj} (h : stepF f (t, .lock m) = some f') :
@@ -186,7 +189,7 @@ theorem step_rd {S : System} {pre : Trace} {o : OSt} {f f' : FSt} {t : Tid} {x :
       simp [(g.at_thr cx k).2 this]
     · have hw := wg_frame g t (.rd x) (f' := f') rfl (fun _ => nofun) (fun _ => nofun)
         (fun _ => nofun)
-      refine ⟨?_, g.ns, g.nr, g.le, g.ss, hw.1, hw.2⟩
+      refine ⟨?_, g.ns, g.nr, g.le, g.ss, hw.1, hw.2, rc_frame g t _ _ (fun _ h => h) (fun _ => nofun)⟩
       apply g.same_loc cx (by rw [hH]; exact fun _ => Iff.rfl)
       intro l hl k
       apply Exp_frame
@@ -195,6 +198,7 @@ theorem step_rd {S : System} {pre : Trace} {o : OSt} {f f' : FSt} {t : Tid} {x :
       · intro _ _; rfl
       · intro _ _; exact ⟨rfl, rfl⟩
       · intro _ _; exact ⟨nofun, nofun⟩
+      · intro _ _; exact ⟨rfl, nofun⟩
   · cases hE
 
 theorem step_wr {S : System} {pre : Trace} {o : OSt} {f f' : FSt} {t : Tid} {x : Var} {H H' : List Tok}
@@ -218,7 +222,7 @@ theorem step_wr {S : System} {pre : Trace} {o : OSt} {f f' : FSt} {t : Tid} {x :
       exact (g.at_thr cx k).2 ((subsetB_iff _ _).1 h1.2 k hk)
     · have hw := wg_frame g t (.wr x) (f' := f') rfl (fun _ => nofun) (fun _ => nofun)
         (fun _ => nofun)
-      refine ⟨?_, g.ns, g.nr, g.le, g.ss, hw.1, hw.2⟩
+      refine ⟨?_, g.ns, g.nr, g.le, g.ss, hw.1, hw.2, rc_frame g t _ _ (fun _ h => h) (fun _ => nofun)⟩
       apply g.same_loc cx (by rw [hH]; exact fun _ => Iff.rfl)
       intro l hl k
       apply Exp_frame
@@ -227,6 +231,7 @@ theorem step_wr {S : System} {pre : Trace} {o : OSt} {f f' : FSt} {t : Tid} {x :
       · intro _ _; rfl
       · intro _ _; exact ⟨rfl, rfl⟩
       · intro _ _; exact ⟨nofun, nofun⟩
+      · intro _ _; exact ⟨rfl, nofun⟩
   · cases hE
 
 end DastardV.C17
